@@ -17,7 +17,8 @@
 (* spelling; absent names not found; header conforms and says what was configured; listing equals   *)
 (* the names put in; every file was compared.  A rejected event carries a reason:                  *)
 (*   "dev:<labels>"  the standard form fails but the smallest combination <labels> of named          *)
-(*                   deviations explains it exactly (known, named interoperability defects)        *)
+(*                   deviations explains it exactly (a named regression: every one of them has     *)
+(*                   been repaired in /repo; accepted only while its finding is listed as known)   *)
 (*   "unexplained"   anything else                                                                 *)
 EXTENDS MpqFormat, Json, IOUtils, TLC, TLCExt
 
